@@ -343,7 +343,14 @@ pub fn step(s: &mut RefState, quirks: &[Quirk]) -> Step {
             return st;
         }
     };
-    let next = pc0.wrapping_add(dec.len);
+    // an odd PC: bit 0 is ignored by the fetch (the words come from pc & !1). Whether the emulator keeps the
+    // bit in PC, clears it or refuses to execute is not constrained (callers compare PC without bit 0 and
+    // accept an error); control-flow instructions (which store or derive values from PC) are left out.
+    if s.pc & 1 != 0 && matches!(insn, Insn::Bcc { .. } | Insn::Jmp(_) | Insn::Bsr { .. } | Insn::Jsr(_) | Insn::Rts | Insn::Rte | Insn::Trapa(_)) {
+        st.outcome = Outcome::Unspecified("control-flow instruction at an odd PC");
+        return st;
+    }
+    let next = pc0.wrapping_add(dec.len) | (s.pc & 1);
     s.pc = next;
     let own = pc0;
     // instruction-fetch cycles: one per instruction word, except that every instruction that loads
